@@ -92,6 +92,7 @@ def run(chk, st, tier):
                             "as 1-page, multi-page and page-size-1 files, plus random workloads over the portfolio with 80% extreme values; every page of the real file is decoded by the extracted validator and Stats.stats_sound is evaluated "
                             "on its header statistics; sink writes (which contain the statistics) also compared with the model byte for byte. distinct = distinct workloads.")
     chk.coverage["explanation"] = "page_stats_sound (coq/props/C12.v) is proved for all pages about the accumulator model; stats_sound is also the oracle applied to the real pages."
+    chk.assumptions += ['statistics compared byte-exactly inside page headers; stats_sound is evaluated on pages decoded by the validator']
 
 
 def _oracle(chk, r):
